@@ -997,7 +997,8 @@ def super_remainder(rep, mod, rule):
         if not named:
             continue
         n += 1
-        c = named[0].r
+        from .sem import nform
+        c = nform(named[0].r)
         star = [a.value for a in c.args if isinstance(a, ast.Starred)]
         if len(named) != 1 or len(star) != 1 or len(c.args) != 2:
             probs.append('synthesized as `%s`' % nt(c)[:80])
@@ -1049,7 +1050,9 @@ def super_cache_protocol(rep, mod, rule):
             if len(st) != 1 or nt(st[0].r.slice) != KEY or nt(st[0].val) != nt(named[0].r):
                 probs.append('the new spec is not stored once under %s in the cache of '
                              '%s: %s' % (KEY, OWNER, [repr(e)[:60] for e in st]))
-            if ps.facts.get('EXCEPT(KeyError)') is not True and \
+            got_none = [t_ for t_ in tables if ps.facts.get(
+                '%s.get(%s) is None' % (t_, KEY)) is True]
+            if ps.facts.get('EXCEPT(KeyError)') is not True and not got_none and \
                     not any('%s in ' % KEY in c for c, t, pp in ps.order):
                 probs.append('computes without having missed the cache')
         else:
